@@ -549,6 +549,25 @@ func (in *interpreter) selectChain(elems []value, idx *Term) value {
 		}
 	}
 	_ = allConst
+	// tables made of few runs of equal values: one comparison per run boundary
+	if len(elems) >= 16 {
+		runs := 1
+		for i := 1; i < len(elems); i++ {
+			if elems[i] != elems[i-1] {
+				runs++
+			}
+		}
+		if runs*4 <= len(elems) {
+			r := in.term(elems[len(elems)-1])
+			for i := len(elems) - 1; i >= 1; i-- {
+				if elems[i] != elems[i-1] {
+					// indexes below i belong to earlier runs
+					r = tt.Ite(tt.Ult(idx, tt.Const(idx.W, uint64(i))), in.term(elems[i-1]), r)
+				}
+			}
+			return in.termValueLike(elems[0], r)
+		}
+	}
 	// ite chain, last element as default
 	r := in.term(elems[len(elems)-1])
 	for i := len(elems) - 2; i >= 0; i-- {
@@ -811,6 +830,21 @@ func (in *interpreter) decodeRune(b []value) (value, int) {
 		return r, sz
 	}
 	p := in.needPath()
+	// bytes produced by encodeRune from a symbolic rune decode back to that rune
+	if t0, ok := b[0].(*Term); ok {
+		if rec, ok := p.runes[t0]; ok && len(b) >= len(rec.bytes) {
+			same := true
+			for i := range rec.bytes {
+				if b[i] != rec.bytes[i] {
+					same = false
+					break
+				}
+			}
+			if same {
+				return norm(types.Typ[types.Int32], rec.r), len(rec.bytes)
+			}
+		}
+	}
 	tt := p.tt
 	boolT := types.Typ[types.Bool]
 	c0 := in.term(b[0])
@@ -910,6 +944,23 @@ func (in *interpreter) encodeRune(r value) []value {
 		return out
 	}
 	tm := r.(*Term)
+	out := in.encodeRuneSym(tm)
+	if t0, ok := out[0].(*Term); ok {
+		p := in.needPath()
+		if p.runes == nil {
+			p.runes = make(map[*Term]runeRec)
+		}
+		p.runes[t0] = runeRec{r: tm, bytes: out}
+	}
+	return out
+}
+
+type runeRec struct {
+	r     *Term
+	bytes []value
+}
+
+func (in *interpreter) encodeRuneSym(tm *Term) []value {
 	tt := in.needPath().tt
 	boolT := types.Typ[types.Bool]
 	ult := func(k uint64) bool { return in.truth(norm(boolT, tt.Ult(tm, tt.Const(32, k)))) }
